@@ -27,8 +27,12 @@ NameClauses(e) ==
     display |-> ok => e.ds = want[2]
   ]
 
+(* a day of a pentad: the pentad's name is one of 72 (not tabulated here); the display string counts the day *)
+PentadClauses(e) == [ display |-> e.ds = e.n \o Nth(e.f[2]) ]
+
 Clauses(i) ==
   CASE Rec[i].k = "cn"    -> CycleClauses(Rec[i])
+    [] Rec[i].k = "nm" /\ Rec[i].t = "PhenologyDay" -> PentadClauses(Rec[i])
     [] Rec[i].k = "nm"    -> NameClauses(Rec[i])
     [] Rec[i].k = "begin" -> [begin |-> TRUE]
     [] OTHER              -> [kind |-> FALSE]
